@@ -103,7 +103,7 @@ func body(r *vf.Run) {
 		kind string
 		n    int
 	}{
-		{"seq", r.N(60, 1500)},
+		{"seq", r.N(100, 1500)},
 		{"gate-fetch", r.N(30, 800)},
 		{"gate-check", r.N(20, 500)},
 		{"storm", r.N(30, 800)},
